@@ -3,7 +3,7 @@ from ..ir import AnalysisBroken, strip_targs, qmatch
 from ..graph import Graph
 from ..expr import access_path, path_str, reaching_defs, norm_cond, origins, leaves, defs_in_node, is_transparent_call
 from ..linear import linear, relation, fmt
-from .common import strip_casts, short, comparison
+from .common import strip_casts, short, comparison, same_class_inline, deparam
 
 UNITS = []
 DRIVERS = ['api_context.cc']
@@ -123,7 +123,9 @@ def rule_r1(ck, prog, scope_prefixes=('opentelemetry::context::', 'opentelemetry
                 involves = _ctx_like(lt) or (len(p) >= 2 and p[-1] in ('head_', 'next_', 'value_', 'key_', 'key_length_'))
                 if involves and ln['k'] != 'ref':
                     tgt, what = p, 'writes %s' % path_str(p)
-                elif involves and ln['k'] == 'ref' and ln.get('sk') == 'param':
+                elif involves and ln['k'] == 'ref' and ln.get('sk') == 'param' and \
+                        any(pp['id'] == ln.get('id') and pp['t'].rstrip().endswith('&') for pp in f.params):
+                    # (a by-value parameter is a local of the callee: re-pointing it changes no context)
                     tgt, what = p, 'assigns to parameter %s' % ln['name']
             elif n['k'] == 'call' and is_transparent_call(n) and strip_targs(n.get('c', '')) == 'std::move' and n.get('args'):
                 a = f.nodes[n['args'][0]]
@@ -230,6 +232,16 @@ def rule_r3(ck, prog, rule='C10.R3', cls='opentelemetry::context::ThreadLocalCon
                          any('Token' in (sf.nodes[a].get('t') or '') for a in ([sf.nodes[i].get('obj')] if sf.nodes[i].get('obj') is not None else []) + sf.nodes[i].get('args', []))]
             if not cmp_token:
                 continue
+            if (sf.d.get('ret') or '') == 'bool':
+                # a membership test: the direction is irrelevant, every attached frame has to be examined
+                bounds = set()
+                for part in ('init', 'cnd'):
+                    if lp.get(part) is not None and lp[part] >= 0:
+                        bounds |= {l[1] for l in leaves(sf, lp[part], follow_locals=True) if l[0] == 'field'}
+                ok = any(b.endswith('size_') for b in bounds)
+                ck.verdict(ok, rule, sf, 'search-most-recent-first', lp, 'the membership test examines all size_ frames' if ok else
+                           'the membership test is not bounded by the number of attached frames: tokens of live attachments are not found (Detach refuses them)')
+                continue
             inc = lp.get('inc')
             down = False
             start_top = False
@@ -244,6 +256,17 @@ def rule_r3(ck, prog, rule='C10.R3', cls='opentelemetry::context::ThreadLocalCon
             ck.verdict(ok, rule, sf, 'search-most-recent-first', lp,
                        'frame search runs from the top of the stack down' if ok else
                        'a frame search that compares the token runs from the bottom up: a context attached twice is matched at its oldest attachment')
+        if (sf.d.get('ret') or '') == 'bool' and not [n for n in sf.nodes if n['k'] in ('for', 'while')]:
+            # the same membership test written with a standard algorithm over [base_, base_ + size_)
+            for n in sf.nodes:
+                if n['k'] == 'call' and strip_targs(n.get('c', '')) in ('std::any_of', 'std::none_of', 'std::find', 'std::find_if', 'std::count', 'std::count_if') and len(n.get('args', [])) >= 3:
+                    flds = {l[1].rsplit('.', 1)[-1] for a in n['args'][:2] for l in leaves(sf, a, follow_locals=True) if l[0] == 'field'}
+                    tok = any('Token' in (m.get('t') or '') or 'Context' in (m.get('t') or '') for a in n['args'][2:] for m in
+                              [x for i in sf.subtree(a) for x in ([sf.nodes[i]] + (prog.funcs[sf.nodes[i]['fn']].nodes if sf.nodes[i]['k'] == 'lambda' and sf.nodes[i].get('fn') in prog.funcs else []))])
+                    if tok:
+                        ok = 'size_' in flds and 'base_' in flds
+                        ck.verdict(ok, rule, sf, 'search-most-recent-first', n, 'the membership test examines all size_ frames (%s)' % strip_targs(n['c']) if ok else
+                                   'the membership test is not over [base_, base_ + size_): tokens of live attachments are not found (Detach refuses them)')
     # ---- Push / Pop / Top / Resize
     push = prog.function('ThreadLocalContextStorage::Stack::Push')
     g = Graph(prog, push, inline=None, sync_lambdas=False)
@@ -251,7 +274,7 @@ def rule_r3(ck, prog, rule='C10.R3', cls='opentelemetry::context::ThreadLocalCon
     incs = [p for p in g.points if p.n is not None and p.n['k'] == 'unop' and p.n['op'] == '++' and access_path(push, p.n['e']) == ('this', 'size_')] + \
            [p for p in g.points if p.n is not None and p.n['k'] == 'binop' and p.n['op'] == '+=' and access_path(push, p.n['lhs']) == ('this', 'size_')]
     writes = [p for p in g.points if p.n is not None and p.n['k'] == 'call' and p.n.get('op') == '=' and p.n.get('obj') is not None and
-              push.nodes[p.n['obj']]['k'] == 'subscript']
+              _once_init(push, p.n['obj'])['k'] == 'subscript']
     resz = g.calls('Stack::Resize')
     # Push stores into the first free slot and counts the frame exactly once. k(p) = how many increments of size_ have happened before
     # point p (0 or 1 on every path): the slot index has to be size_ - k(write) (the old size), the growth guard has to say
@@ -270,9 +293,9 @@ def rule_r3(ck, prog, rule='C10.R3', cls='opentelemetry::context::ThreadLocalCon
         once = g.exit.id not in g.reachable_from(g.entry, avoid=incs) and \
             not any(b_.id in g.reachable_from([q for (q, _l) in a_.succ]) for a_ in incs for b_ in incs)
         w = writes[0]
-        sub = push.nodes[w.n['obj']]
+        sub = _once_init(push, w.n['obj'])
         lin = linear(g, rd, push, sub['index'], w.ctx)
-        kw = k_at(w)
+        kw = k_at(g.point_of.get((id(g.root_ctx), sub['i']), w))   # the slot is selected where the subscript is evaluated
         ok = once and kw is not None and lin == ({'this.size_': 1, '1': -1} if kw == 1 else {'this.size_': 1})
         why = 'one increment per path: %s; slot index %s with %s increment(s) before the write' % (once, fmt(lin), kw)
         if ok:
@@ -320,21 +343,15 @@ def rule_r3(ck, prog, rule='C10.R3', cls='opentelemetry::context::ThreadLocalCon
     g = Graph(prog, rz, inline=None, sync_lambdas=False)
     rd = reaching_defs(g)
     news = [n for n in rz.nodes if n['k'] == 'new' and 'size' in n]
-    loops = [n for n in rz.nodes if n['k'] == 'for']
-    ok = len(news) == 1 and len(loops) == 1
+    lp, mn = _resize_copy_bound(rz)
+    loops = [lp] if lp is not None else []
+    ok = len(news) == 1 and mn is not None
     if ok:
-        npt = g.point_of.get((id(g.root_ctx), news[0]['i']))
-        lin = linear(g, rd, rz, news[0]['size'], g.root_ctx)
-        cond = comparison(rz, loops[0]['cnd'])
-        bound_ok = False
-        if cond and cond[0] == '<':
-            b = strip_casts(rz, cond[2])
-            if b['k'] == 'call' and strip_targs(b.get('c', '')) in ('std::min',):
-                names = set()
-                for a in b.get('args', []):
-                    names |= {rz.nodes[i]['name'] for i in rz.subtree(a) if rz.nodes[i]['k'] == 'ref'}
-                bound_ok = 'new_capacity' in names and len(names) == 2
-        ok = bound_ok
+        names = set()
+        for a in mn['args'][:2]:
+            names |= {rz.nodes[i]['name'] for i in rz.subtree(a) if rz.nodes[i]['k'] == 'ref' and rz.nodes[i].get('sk') in ('local', 'param')}
+        cap = [p['name'] for p in rz.params]
+        ok = len(names) == 2 and any(c in names for c in cap)
     ck.verdict(ok, rule, rz, 'resize-copies-min', loops[0] if loops else None,
                'copies min(old size, new capacity) frames' if ok else 'Resize does not copy min(old size, new capacity) frames into the new array: frames are lost or read out of bounds')
 
@@ -354,23 +371,63 @@ def rule_r4(ck, prog, rule='C10.R4'):
     ck.verdict(ok, rule, f, 'attach-pushes-token-context', push[0].n if push else None,
                'Attach pushes the context it builds the token from' if ok else 'Attach does not push exactly the context recorded in the token: Detach can never match it')
     f = prog.function('trace::Scope::Scope')
-    names = []
-    for n in f.nodes:
-        if n['k'] == 'call':
-            names.append(strip_targs(n.get('c', '')).rsplit('::', 2)[-2:])
-    flat = {'::'.join(x) for x in names}
-    att = [n for n in f.nodes if n['k'] == 'call' and qmatch(n.get('c', ''), 'RuntimeContext::Attach')]
-    ok = len(att) == 1
+    g = Graph(prog, f, inline=same_class_inline(prog, f.cls), sync_lambdas=False)
+    rd = reaching_defs(g)
+    attp = g.calls('RuntimeContext::Attach')
+    att = [p.n for p in attp]
+    ok = len(attp) == 1
     if ok:
-        sub = [f.nodes[i] for i in f.subtree(att[0]['args'][0])]
-        sv = [n for n in sub if n['k'] == 'call' and qmatch(n.get('c', ''), 'Context::SetValue')]
-        ok = len(sv) == 1 and any(n['k'] == 'call' and qmatch(n.get('c', ''), 'RuntimeContext::GetCurrent') for n in [f.nodes[i] for i in f.subtree(sv[0]['obj'])])
+        ap = attp[0]
+        svs = [(sf, sn, sc) for (sf, sn, sc) in origins(g, rd, ap.f, ap.n['args'][0], ap.ctx) if sn['k'] == 'call' and qmatch(sn.get('c', ''), 'Context::SetValue')]
+        srcs = origins(g, rd, ap.f, ap.n['args'][0], ap.ctx)
+        ok = len(svs) == 1 and len(srcs) == 1
         if ok:
-            a0 = [f.nodes[i] for i in f.subtree(sv[0]['args'][0])]
-            a1 = [f.nodes[i] for i in f.subtree(sv[0]['args'][1])]
-            ok = any(n['k'] == 'ref' and n['name'] == 'kSpanKey' for n in a0) and any(n['k'] == 'ref' and n.get('id') == f.params[0]['id'] for n in a1)
+            sf, sn, sc = svs[0]
+            base = origins(g, rd, sf, sn['obj'], sc) if sn.get('obj') is not None else []
+            ok = bool(base) and all(bn['k'] == 'call' and strip_targs(bn.get('c', '')).endswith(('RuntimeContext::GetCurrent', 'RuntimeContextStorage::GetCurrent')) for (bf, bn, bc) in base)
+            if ok:
+                a0 = [sf.nodes[i] for i in sf.subtree(sn['args'][0])]
+                vf, vi, vc = deparam(sf, sn['args'][1], sc)
+                for _ in range(4):
+                    vn = strip_casts(vf, vi)
+                    if vn['k'] in ('construct', 'call') and len([a for a in vn.get('args', []) if a is not None and a >= 0]) == 1 and vn.get('obj') is None:
+                        vf, vi, vc = deparam(vf, [a for a in vn['args'] if a is not None and a >= 0][0], vc)
+                    else:
+                        break
+                vn = strip_casts(vf, vi)
+                ok = any(n['k'] == 'ref' and n['name'] == 'kSpanKey' for n in a0) and vf is f and vn['k'] == 'ref' and vn.get('id') == f.params[0]['id']
     ck.verdict(ok, rule, f, 'scope-attaches-span-on-current', att[0] if att else None,
                'Scope attaches GetCurrent().SetValue(kSpanKey, span)' if ok else 'Scope does not attach the current context extended with the span under the span key')
+
+
+
+def _once_init(f, idx):
+    """the initialiser of a local that is initialised once and never written again (casts stripped), else the node itself"""
+    for _ in range(4):
+        n = strip_casts(f, idx)
+        if n['k'] == 'ref' and n.get('sk') == 'local':
+            decls = [d for m in f.nodes if m['k'] == 'declstmt' for d in m['decls'] if d['id'] == n['id']]
+            inits = [d['init'] for d in decls if d.get('init') is not None and d['init'] >= 0]
+            is_reference = any(d['t'].rstrip().endswith('&') for d in decls)   # a reference is never re-bound: "writes" go to the referent
+            writes = [] if is_reference else [m for m in f.nodes for (v, s_, vx) in defs_in_node(f, m) if v == n['id'] and m['k'] != 'declstmt']
+            if len(inits) == 1 and not writes:
+                idx = inits[0]
+                continue
+        return n
+    return strip_casts(f, idx)
+
+
+def _resize_copy_bound(rz):
+    """(copy loop, the std::min call that bounds it) of Resize: a for/while loop whose condition is `i < std::min(a, b)`, the bound
+    possibly held in a local initialised once"""
+    for lp in [n for n in rz.nodes if n['k'] in ('for', 'while') and n.get('cnd') is not None and n['cnd'] >= 0]:
+        cond = comparison(rz, lp['cnd'])
+        if not cond or cond[0] not in ('<', '!='):
+            continue
+        b = _once_init(rz, cond[2])
+        if b['k'] == 'call' and strip_targs(b.get('c', '')) == 'std::min' and len(b.get('args', [])) >= 2:
+            return lp, b
+    return None, None
 
 
 def rule_r3_resize_callers(ck, prog, rule='C10.R3'):
@@ -379,21 +436,16 @@ def rule_r3_resize_callers(ck, prog, rule='C10.R3'):
     rz = prog.function('ThreadLocalContextStorage::Stack::Resize')
     g = Graph(prog, rz, inline=None, sync_lambdas=False)
     rd = reaching_defs(g)
-    loops = [n for n in rz.nodes if n['k'] == 'for']
-    keeps_minus_one = False
     k_r = None
-    if loops:
-        cond = comparison(rz, loops[0]['cnd'])
-        if cond:
-            for j in rz.subtree(cond[2]):
-                m = rz.nodes[j]
-                if m['k'] == 'ref' and m.get('sk') == 'local':
-                    lin = linear(g, rd, rz, j, g.root_ctx)
-                    if lin == {'this.size_': 1, '1': -1}:
-                        keeps_minus_one = True
-                        k_r = 1
-                    elif lin == {'this.size_': 1}:
-                        k_r = 0
+    lp, mn = _resize_copy_bound(rz)
+    if mn is not None:
+        for a in mn['args'][:2]:
+            for j in [a] + list(rz.subtree(a)):
+                lin = linear(g, rd, rz, j, g.root_ctx)
+                if lin == {'this.size_': 1, '1': -1}:
+                    k_r = 1
+                elif lin == {'this.size_': 1} and k_r is None:
+                    k_r = 0
     cnt = 0
     for f in sorted(prog.funcs.values(), key=lambda x: x.key):
         calls = [n for n in f.nodes if n['k'] == 'call' and qmatch(n.get('c', ''), 'ThreadLocalContextStorage::Stack::Resize')]
